@@ -6,6 +6,7 @@ import (
 	"bytes"
 	"context"
 	"fmt"
+	"github.com/libp2p/go-libp2p/core/crypto"
 	"reflect"
 	"runtime"
 	"sort"
@@ -141,6 +142,13 @@ func newC19Env(t testing.TB, seed int64, ops []svcOp) *c19Env {
 					_, _ = tp.Service.ActivateGroup(ctx, &protocoltypes.ActivateGroup_Request{GroupPk: e.contactGPK})
 				}
 			}
+		case "odd-contact":
+			// a contact whose 32-byte key is no curve point, brought to the state "added" through requests that are
+			// all accepted: block, unblock, send a request
+			np := c19OffCurveKey(1) // not the one in the request alphabet: no request of the catalogue changes this contact
+			_, _ = tp.Service.ContactBlock(ctx, &protocoltypes.ContactBlock_Request{ContactPk: np})
+			_, _ = tp.Service.ContactUnblock(ctx, &protocoltypes.ContactUnblock_Request{ContactPk: np})
+			_, _ = tp.Service.ContactRequestSend(ctx, &protocoltypes.ContactRequestSend_Request{Contact: &protocoltypes.ShareableContact{Pk: np, PublicRendezvousSeed: []byte("seed-1-seed-1-seed-1-seed-1-seed")}})
 		case "deactivate-contact-group":
 			if e.contactGPK != nil {
 				_, _ = tp.Service.DeactivateGroup(ctx, &protocoltypes.DeactivateGroup_Request{GroupPk: e.contactGPK})
@@ -179,7 +187,9 @@ func newC19Env(t testing.TB, seed int64, ops []svcOp) *c19Env {
 					})
 				}
 				mut(func(m *protocoltypes.OutOfStoreMessageEnvelope) { m.Box[len(m.Box)-1] ^= 1 })
-				mut(func(m *protocoltypes.OutOfStoreMessageEnvelope) { m.GroupReference = m.GroupReference[:len(m.GroupReference)-1] })
+				mut(func(m *protocoltypes.OutOfStoreMessageEnvelope) {
+					m.GroupReference = m.GroupReference[:len(m.GroupReference)-1]
+				})
 				mut(func(m *protocoltypes.OutOfStoreMessageEnvelope) { m.GroupReference = nil })
 			}
 		}
@@ -235,7 +245,7 @@ func (e *c19Env) fieldValues(seed int64, f protoreflect.FieldDescriptor) []proto
 			known = []byte("payload")
 		}
 		// 32 bytes that have the length of a key and are not the encoding of a curve point
-		notAPoint := append([]byte{2}, make([]byte, 31)...)
+		notAPoint := c19OffCurveKey(0)
 		vals := [][]byte{nil, {}, {1}, bytes.Repeat([]byte{7}, 31), bytes.Repeat([]byte{0xff}, 32), notAPoint, unknown, bytes.Repeat([]byte{7}, 33), bytes.Repeat([]byte{0xAB}, 64*1024)}
 		if strings.Contains(name, "group_pk") {
 			vals = append(vals, e.accountPK)
@@ -625,6 +635,8 @@ func TestVerifC19(t *testing.T) {
 			}
 		}
 	}
+	// one more state outside the activation histories: the account holds an added contact with a key that is not a point
+	states = append(states, []svcOp{"odd-contact"})
 	for _, st := range states {
 		e := newC19Env(t, seed, st)
 		e = c19CallAll(rep, t, seed, st, e)
@@ -699,4 +711,24 @@ func c19Helpers(rep *vrep.Report, seed int64) {
 		}
 	}
 	rep.Sample(map[string]interface{}{"helpers": len(helpers), "inputs_per_helper": len(inputs)})
+}
+
+// c19OffCurveKey: 32 bytes that pass as an Ed25519 public key (only the length is checked when it is parsed) and do not
+// encode a point of the curve (the conversion used for key agreement fails on it).
+func c19OffCurveKey(skip int) []byte {
+	for i := 2; i < 256; i++ {
+		raw := make([]byte, 32)
+		raw[0] = byte(i)
+		pk, err := crypto.UnmarshalEd25519PublicKey(raw)
+		if err != nil {
+			continue
+		}
+		if _, err := cryptoutil.EdwardsToMontgomeryPub(pk); err != nil {
+			if skip == 0 {
+				return raw
+			}
+			skip--
+		}
+	}
+	panic("HARNESS: no off-curve key found")
 }
